@@ -86,12 +86,17 @@ CLAIMED["C08"] = dict(
     text="Axiom-free Coq theorems about the one transcription of to_base/from_base at rational storage (any base-unit vector, exponents, "
          "coefficient, offset, value; both branches, no side condition): construction and read-back equal the conversion formula, "
          "construct-then-read is the identity, two units differ by the coefficient ratio; integer storage equals that result truncated toward "
-         "zero (with the specification of truncation); big-number powi is the rational power; tie: BigRational/BigInt/BigUint results equal to "
-         "the extracted model on every case, and every storage type incl. Rational64/i64/i32/u64 equal to the exact rational formula applied to "
-         "the PUBLISHED coefficient()/constant() (truncated for integers)",
-    note=TB + "fixed-width types: coefficient() (num-rational's approximate_float) is an input; overflow behaviour decided only on a must-not-overflow "
-         "stream (all intermediates tiny); unsigned types scoped to non-negative results",
-    technique="Coq proof (exact arithmetic) + extracted-model correspondence + exact oracle on published coefficients")
+         "zero (with the specification of truncation); big-number powi is the rational power; FIXED WIDTH (Model/Fixed.v: the same conversion "
+         "functions over a width-checked transcription of num-rational's Ratio<iN>, None = panic): for every width, unit, base-unit set and value, "
+         "a conversion that returns a value returns the exact formula (rational), its truncation inside the type's range (integer), and re-basing "
+         "preserves the physical magnitude; tie: BigRational/BigInt/BigUint results equal to the extracted model on every case; "
+         "Rational64/i64/i32/u64 over the whole range of the type equal to the width-checked model INCLUDING which cases panic (run on the "
+         "published coefficient()/constant()), Ratio<i8|i32|i64|u64> single operations equal to the same model, and every storage type equal "
+         "to the exact rational formula applied to the PUBLISHED coefficient()/constant() (truncated for integers)",
+    note=TB + "fixed-width types: coefficient() (num-rational's approximate_float) is an input; num-rational / num-integer / core integer pow are "
+         "modelled (Model/Fixed.v), validated on ~70 000 edge and random single operations per run, not verified; unsigned types scoped to "
+         "non-negative results",
+    technique="Coq proof (exact arithmetic; width-checked Ratio<iN> model) + extracted-model correspondence + exact oracle on published coefficients")
 CLAIMED["C09"] = dict(
     text="Axiom-free Coq theorems: a point is stored as (t+c)k/Th and read back inversely (offset applied once), intervals are linear and unit-"
          "preserving, (point in scale s) +/- (interval in scale s') read in s is t +/- delta k'/k also across temperature base units; on the "
